@@ -181,16 +181,25 @@ func (r *R) Gen(ctx sdk.Context, g *hx.Rng) string {
 		return "token reimport"
 	}
 	var kind int
-	//            issue edit mint burn xfer swapfee deploy toerc fromerc hook fault params evmtx
+	//            issue edit mint burn xfer swapfee deploy toerc fromerc hook fault params evmtx upgrade
 	if r.mix == "c10" {
-		kind = g.Pick(8, 2, 12, 4, 2, 16, 8, 16, 14, 6, 5, 1, 10)
+		kind = g.Pick(8, 2, 12, 4, 2, 16, 8, 16, 14, 6, 5, 1, 10, 5)
 	} else if r.mix == "base" {
-		kind = g.Pick(10, 14, 20, 20, 8, 6, 0, 0, 0, 0, 0, 2, 0)
+		kind = g.Pick(10, 14, 20, 20, 8, 6, 0, 0, 0, 0, 0, 2, 0, 0)
 	} else {
-		kind = g.Pick(10, 14, 20, 20, 8, 3, 2, 3, 2, 1, 1, 2, 1)
+		kind = g.Pick(10, 14, 20, 20, 8, 3, 2, 3, 2, 1, 1, 2, 1, 2)
 	}
 	if len(user) == 0 && g.Chance(2, 3) {
 		kind = 0
+	}
+	// issue / edit / mint / burn / transfer-owner go through the legacy (v1beta1) Msg service
+	// about as often as through the v1 service, in the same history
+	legacy := kind <= 4 && g.Chance(2, 5)
+	lg := func(op string) string {
+		if legacy {
+			return "token legacy_" + op + " "
+		}
+		return "token " + op + " "
 	}
 	// steer towards operations that can succeed in the current state
 	nBound := 0
@@ -225,6 +234,17 @@ func (r *R) Gen(ctx sdk.Context, g *hx.Rng) string {
 			}
 			if len(want) > 0 {
 				mu = unused(g, want, usedMu)
+			}
+		}
+		// a min unit that is another token's symbol, a symbol that is another token's min unit
+		if len(user) > 0 && g.Chance(1, 6) {
+			o := user[g.Intn(len(user))]
+			if g.Chance(1, 2) {
+				if !usedMu[o.sym] {
+					mu = o.sym
+				}
+			} else if !usedSym[o.mu] && tokentypes.ValidateSymbol(o.mu) == nil {
+				sym = o.mu
 			}
 		}
 		bad := -1
@@ -294,7 +314,7 @@ func (r *R) Gen(ctx sdk.Context, g *hx.Rng) string {
 		if bad == 6 {
 			owner = []string{"FC", "TM", "BAD"}[g.Intn(3)]
 		}
-		return "token issue " + hx.KV("owner", owner, "symbol", sym, "name", name, "minunit", mu, "scale", scale,
+		return lg("issue") + hx.KV("owner", owner, "symbol", sym, "name", name, "minunit", mu, "scale", scale,
 			"init", init, "max", max, "mintable", b01(g.Chance(2, 3)))
 	case 1: // edit
 		t := pickTok()
@@ -328,7 +348,7 @@ func (r *R) Gen(ctx sdk.Context, g *hx.Rng) string {
 			max = u64str(new(big.Int).Add(q, big.NewInt(g.Range(2, 1000))))
 		}
 		mint := []string{"-", "true", "false", "1", "x", "True"}[g.Pick(4, 3, 3, 1, 1, 1)]
-		return "token edit " + hx.KV("owner", sender, "symbol", t.sym, "name", name, "max", max, "mintable", mint)
+		return lg("edit") + hx.KV("owner", sender, "symbol", t.sym, "name", name, "max", max, "mintable", mint)
 	case 2: // mint
 		t := pickTok()
 		for i := 0; i < 3 && !t.mintable; i++ {
@@ -346,6 +366,16 @@ func (r *R) Gen(ctx sdk.Context, g *hx.Rng) string {
 			}
 		}
 		room := new(big.Int).Sub(new(big.Int).Mul(new(big.Int).SetUint64(t.max), pow10(t.scale)), t.supply)
+		for i := 0; legacy && i < 3 && (!t.mintable || room.Cmp(pow10(t.scale)) < 0); i++ { // prefer room for a main unit
+			t = pickTok()
+			room = new(big.Int).Sub(new(big.Int).Mul(new(big.Int).SetUint64(t.max), pow10(t.scale)), t.supply)
+			if !g.Chance(1, 6) {
+				sender = t.owner
+			}
+		}
+		if legacy { // a uint64 amount of MAIN units, by symbol: at / around the cap boundary (room < 10^scale included)
+			return "token legacy_mint " + hx.KV("owner", sender, "to", to, "symbol", t.sym, "amount", mainUnits(g, room, t.scale))
+		}
 		var amt *big.Int
 		switch g.Pick(5, 3, 2, 2, 1) {
 		case 0:
@@ -365,9 +395,19 @@ func (r *R) Gen(ctx sdk.Context, g *hx.Rng) string {
 		return "token mint " + hx.KV("owner", sender, "to", to, "denom", t.mu, "amount", amt)
 	case 3: // burn
 		t := pickTok()
+		if legacy && g.Chance(1, 4) { // a token bound to an ICS20 denom: only the legacy service can burn it
+			for _, x := range user {
+				if strings.Contains(x.mu, "/") {
+					t = x
+				}
+			}
+		}
 		s, bal := r.holder(ctx, g, t.mu)
 		if g.Chance(1, 30) {
 			s = anyAcc(g)
+		}
+		if legacy {
+			return "token legacy_burn " + hx.KV("sender", s, "symbol", t.sym, "amount", mainUnits(g, bal, t.scale))
 		}
 		var amt *big.Int
 		switch g.Pick(5, 3, 2, 1) {
@@ -397,7 +437,7 @@ func (r *R) Gen(ctx sdk.Context, g *hx.Rng) string {
 		if g.Chance(1, 15) {
 			dst = src
 		}
-		return "token transfer_owner " + hx.KV("src", src, "dst", dst, "symbol", t.sym)
+		return lg("transfer_owner") + hx.KV("src", src, "dst", dst, "symbol", t.sym)
 	case 5: // swap fee token
 		t := pickTok()
 		if len(swappable) > 0 && g.Chance(9, 10) {
@@ -426,10 +466,14 @@ func (r *R) Gen(ctx sdk.Context, g *hx.Rng) string {
 			auth = anyAcc(g)
 		}
 		t := pickTok()
-		if g.Chance(1, 6) { // an ICS20 denom without a token
+		if g.Chance(1, 5) { // an ICS20 denom without a token
 			i := g.Intn(3)
+			scale := g.Intn(20)
+			if g.Chance(1, 2) {
+				scale = []int{0, 6, 18}[g.Intn(3)]
+			}
 			return "token deploy " + hx.KV("authority", auth, "name", fmt.Sprintf("ics%d", i), "symbol", fmt.Sprintf("ics%d", i),
-				"minunit", fmt.Sprintf("ibc/DEAD%d", i), "scale", g.Intn(20))
+				"minunit", fmt.Sprintf("ibc/DEAD%d", i), "scale", scale)
 		}
 		var un []tokInfo
 		for _, x := range toks {
@@ -569,6 +613,31 @@ func (r *R) Gen(ctx sdk.Context, g *hx.Rng) string {
 			target = fmt.Sprintf("U%d", g.Intn(3))
 		}
 		return "token evm_tx " + hx.KV("target", target, "logs", hx.Dash(strings.Join(logs, ",")))
+	case 13: // UpgradeERC20: authority or a stranger; implementations with and without code
+		auth := "GOV"
+		if g.Chance(1, 5) {
+			auth = anyAcc(g)
+		}
+		var impl string
+		switch g.Pick(6, 2, 1, 1, 1, 1, 1, 1) {
+		case 0:
+			impl = fmt.Sprintf("I%d", g.Intn(4))
+		case 1: // a contract of the module account: code once it exists
+			impl = fmt.Sprintf("K%d", 1+g.Intn(nBound+2))
+		case 2:
+			impl = "Z"
+		case 3:
+			impl = fmt.Sprintf("E%d", g.Intn(3))
+		case 4:
+			impl = acc(g)
+		case 5:
+			impl = "B"
+		case 6:
+			impl = "TM"
+		default:
+			impl = "BAD"
+		}
+		return "token upgrade_erc20 " + hx.KV("authority", auth, "impl", impl)
 	case 10: // contract misbehaviour
 		mode := []string{"none", "mint_revert", "mint_noop", "mint_short", "burn_revert", "burn_noop", "call_err", "bogus"}[g.Pick(8, 2, 2, 2, 2, 2, 2, 1)]
 		if r.evm.Fault != "none" && g.Chance(2, 3) {
@@ -609,6 +678,37 @@ func (r *R) Gen(ctx sdk.Context, g *hx.Rng) string {
 }
 
 const tokentypes_DoNotModify = "[do-not-modify]"
+
+// mainUnits draws a uint64 amount of main units around ⌊v / 10^scale⌋ (v in min units): the
+// largest amount that fits, one more, one less, small amounts, zero, and the top of the uint64 range.
+func mainUnits(g *hx.Rng, v *big.Int, scale int) string {
+	q := new(big.Int)
+	if v.Sign() > 0 {
+		q.Quo(v, pow10(scale))
+	}
+	switch g.Pick(7, 3, 2, 5, 1, 1, 1) {
+	case 0:
+		if q.Sign() == 0 {
+			return "1"
+		}
+		return u64str(q)
+	case 1:
+		return u64str(new(big.Int).Add(q, big.NewInt(1)))
+	case 2:
+		return u64str(new(big.Int).Sub(q, big.NewInt(1)))
+	case 3:
+		if q.IsInt64() && q.Int64() >= 1 && q.Int64() < 5 {
+			return fmt.Sprint(g.Range(1, q.Int64()))
+		}
+		return fmt.Sprint(g.Range(1, 5))
+	case 4:
+		return "0"
+	case 5:
+		return new(big.Int).Sub(maxU64, big.NewInt(g.Range(0, 2))).String()
+	default:
+		return fmt.Sprint(g.U64())
+	}
+}
 
 // evmHolder picks a holder of ERC20 balance on contract k (symbolic K name).
 func (r *R) evmHolder(g *hx.Rng, k string, accountsOnly bool) (string, *big.Int) {
